@@ -13,9 +13,18 @@ arbitrary (extended) successes; del_ins_commute(+both): Delete;Insert and Insert
 the same stack, position and cost and are applicable together, so the normal form loses
 nothing; simplify_postconditions / sorted_means / reference_form: the mirror of
 simplify_repairs yields NoDup, no trailing Shift, sorted by (avoid_insert, length), no Insert
-of eof, one cost.  STATED, NOT PROVED (the property is claimed partial): search_complete_stmt true
-(the bucketed search with merging, as the code is now, returns exactly the reference set on
-validated conflict-free tables).  search_complete_stmt false — the code as it was pinned, whose
+of eof, one cost.  COMPLETENESS / MINIMALITY of the search mirror, as the code is now (C06/Complete*.v,
+the Dijkstra invariant with node merging): dijkstra_complete / reported_cost_minimal — for EVERY
+table, whatever the mirror returns costs no more than any normal-form repair whose cost fits u16,
+and a repair of that cost is, move for move, a sequence of a returned node; search_complete_bounded
+/ search_reports_exactly / search_complete_at_error — on reduce-confluent tables the reported SET is
+the reference's; validated_reported_cost_eq_reference / validated_candidates_complete /
+validated_reported_are_min_cost / validated_search_complete — the same on VALIDATED tables with the
+reference at every sufficiently large reduction fuel (the set under rank_fuel_ok: rank_cnds' plain
+parsing met no exhausted fuel in the model).  search_complete_stmt true exactly as stated in
+C06/Refuted.v (no bound on the minimum cost) is FALSE: search_complete_needs_cost_bound (S: 'a';
+a^259, costs 255: the only repair costs 65790 > u16::MAX, the search reports nothing; replayed on
+the implementation).  search_complete_stmt false — the code as it was pinned, whose
 CPCTPlus::shift kept its neighbour only `if n.pstack != n_pstack` — is REFUTED
 (search_complete_refuted, vm_compute on the DESIGN §9 witness, on a mirror of dijkstra + CPCTPlus
 that reproduced that implementation's output); /repo cf71a95 repaired it (`|| new_laidx > laidx`),
@@ -188,7 +197,7 @@ def run(ctx):
         ctx.oblige(True)
     exe = core.build_harness("repair")
     mexe = core.build_model("c06")
-    cases = c06gen.corpus_cases(ctx.rng, ctx.n(12, 120)) + c06gen.gen_cases(ctx, ctx.n(150, 1500), ctx.n(6, 8))
+    cases = c06gen.long_tail_cases() + c06gen.corpus_cases(ctx.rng, ctx.n(12, 120)) + c06gen.gen_cases(ctx, ctx.n(150, 1500), ctx.n(6, 8))
     impl = run_impl(exe, cases)
     todo = [(i, l) for i, l in enumerate(impl) if l.startswith("G ")]
     # the mirror with the pinned `shift` is only needed while the KNOWN_SHIFT class applies
@@ -372,9 +381,12 @@ def run(ctx):
                             "the direct checks apply to them); non-trivial = the error carries at least one repair sequence; distinct "
                             "by (grammar text, costs, token list, error index).")
     ctx.assumptions += [
-        "search_complete_stmt (the bucketed search with merging returns exactly the reference set) is stated, not proved: the "
-        "property is claimed partial; completeness/minimality of the implementation's set is decided per generated error by "
-        "set equality with the proved-exact reference",
+        "completeness/minimality of the search MIRROR is proved (C06_dijkstra_complete, C06_reported_cost_minimal for every table; "
+        "C06_search_complete_bounded on reduce-confluent tables; C06_validated_search_complete on validated tables, reference at every "
+        "sufficiently large reduction fuel, under rank_fuel_ok) for minimum costs <= 65535 (C06_search_complete_needs_cost_bound: "
+        "beyond that the search reports nothing); the tie of the mirror to the implementation is the correspondence run, and "
+        "completeness/minimality of the IMPLEMENTATION's set is still decided per generated error by set equality with the "
+        "proved-exact reference",
         "the reference is exponential in the repair cost: errors whose minimum cost needs more than %s edits or whose "
         "enumeration exceeds the time cap are counted (reference_not_computed) and only get the direct checks" % ctx.n(6, 7),
         "recovery budget raised to %d ms through the hook; inputs whose parse took >= 80%% of it are not compared" % BUDGET_MS,
